@@ -215,9 +215,10 @@ def lowerC (c : Nat) : Nat := if 65 ≤ c ∧ c ≤ 90 then c + 32 else c
 /-- ASCII `strings.ToLower` (also the ASCII part of `strings.EqualFold`). -/
 def lower (s : Str) : Str := s.map lowerC
 
-/-- `strings.ToLower` as far as it matters in `unbindURI`: besides A–Z, the
-    Kelvin sign U+212A (E2 84 AA) lowers to `k` and U+0130 (C4 B0) to `i`;
-    every other non-ASCII rune stays non-ASCII and is rejected by `validate`. -/
+/-- `strings.ToLower` on a byte string: besides A–Z, the Kelvin sign U+212A
+    (E2 84 AA) lowers to `k` and U+0130 (C4 B0) to `i`.  Since /repo 33457076
+    `unbindURI` lower-cases ASCII strings only, where this is `lower`; the two
+    non-ASCII cases are kept so that the model says what `ToLower` would do. -/
 def lowerURI : Str → Str
   | [] => []
   | [c] => [lowerC c]
@@ -247,6 +248,7 @@ def uriDecode : Str → Str
 def unbindURIAttr (s : Str) : Option Value :=
   if s = [] then some ⟨.any, []⟩
   else if s = [45] then some ⟨.na, []⟩
+  else if s.any (fun c => decide (127 ≤ c)) then none  -- a rune ≥ unicode.MaxASCII, or invalid UTF-8
   else
     let l := lowerURI s
     if l.any (fun c => Gen.Cpe.uriDisallow.contains c) then none
